@@ -2,10 +2,11 @@
 //
 // A case is a list of integers.  For property Cnn the extracted Coq function
 // Model.dispatch nn sub args is reached through the OCaml driver (one process per worker):
-//   sub 0: the model's output on the case        (X: must equal the implementation's output)
-//   sub 1: the specification's output on the case (F: must match the implementation's output;
-//          the token WILD in the specification's output matches anything)
-//   sub 2: (relational properties) spec_ok applied to put_list(case) ++ put_list(implementation output) -> [1] / [0]
+//
+//	sub 0: the model's output on the case        (X: must equal the implementation's output)
+//	sub 1: the specification's output on the case (F: must match the implementation's output;
+//	       the token WILD in the specification's output matches anything)
+//	sub 2: (relational properties) spec_ok applied to put_list(case) ++ put_list(implementation output) -> [1] / [0]
 package main
 
 import (
@@ -40,20 +41,23 @@ const (
 )
 
 type Prop struct {
-	ID       string
-	Num      int
-	NumOf    func(in []int64) int // optional: the dispatch number of a case (a family evaluated by another Run file, e.g. Run/C106.v); default Num
-	SpecMode string // "equal" (sub 1 output vs impl), "rel" (sub 2 verdict), "none"
-	Gen      func(c *Ctx)
-	Impl     func(in []int64) []int64
-	ImplM    func(in, model []int64) []int64    // optional: implementation driven by the model's answer (schedules)
-	Shrink   func(in []int64) [][]int64         // optional: smaller candidate inputs
-	Isolate  func(in []int64) bool              // optional: cases whose implementation run may kill the process (an allocation of 2^40 bytes is a fatal error, not a panic) run in a child process with an address-space limit
-	Known    func(in, out []int64) string       // optional: id of the known finding this failing case belongs to
-	Oracle   func(q []int64) []int64            // optional: answers ASK queries of the model
-	XProj    func(in, impl []int64) []int64     // optional: the part of the implementation's output the model can predict (the rest depends on internal nondeterminism the harness cannot observe, e.g. Go map order); X compares the model with this projection, the judge (sub 1/2) always sees the whole output.  Default: the whole output.
-	Describe func(in []int64) string            // optional: human-readable rendering for replays
-	Rule     string                             // how cases are generated; what counts as non-trivial
+	ID         string
+	Num        int
+	NumOf      func(in []int64) int // optional: the dispatch number of a case (a family evaluated by another Run file, e.g. Run/C106.v); default Num
+	SpecMode   string               // "equal" (sub 1 output vs impl), "rel" (sub 2 verdict), "none"
+	Gen        func(c *Ctx)
+	Impl       func(in []int64) []int64
+	ImplM      func(in, model []int64) []int64 // optional: implementation driven by the model's answer (schedules)
+	Shrink     func(in []int64) [][]int64      // optional: smaller candidate inputs
+	JudgeLimit int                             // relational properties: cases longer than this are not given to the judge (one evaluation can take many minutes): implementation = model is accepted (the model's own output is proved to pass the judge), a difference is reported as a difference
+	SpecSkip   func(in []int64) bool           // optional: cases outside the domain of the specification that the (more detailed) model still describes: compared with the model only
+	Pure       bool                            // the implementation run of a case touches only objects of its own: the same case must give the same result while other calls run at the same time (concurrent phase)
+	Isolate    func(in []int64) bool           // optional: cases whose implementation run may kill the process (an allocation of 2^40 bytes is a fatal error, not a panic) run in a child process with an address-space limit
+	Known      func(in, out []int64) string    // optional: id of the known finding this failing case belongs to
+	Oracle     func(q []int64) []int64         // optional: answers ASK queries of the model
+	XProj      func(in, impl []int64) []int64  // optional: the part of the implementation's output the model can predict (the rest depends on internal nondeterminism the harness cannot observe, e.g. Go map order); X compares the model with this projection, the judge (sub 1/2) always sees the whole output.  Default: the whole output.
+	Describe   func(in []int64) string         // optional: human-readable rendering for replays
+	Rule       string                          // how cases are generated; what counts as non-trivial
 }
 
 var props = map[string]*Prop{}
@@ -293,6 +297,8 @@ type Ctx struct {
 	Workers int
 
 	mu         sync.Mutex
+	conc       [][2][]int64 // concurrent phase: a sample of (case, implementation output)
+	concSeen   int
 	evals      int
 	distinct   map[[20]byte]bool
 	nontrivial int
@@ -315,6 +321,8 @@ type T struct {
 	R *rand.Rand
 	// oracle properties: the sub-0 arguments including the completed oracle table of the last evaluation
 	last0 []int64
+	// concurrent phase: judge this output (obtained while other calls were running) instead of running the case again
+	force []int64
 }
 
 func (c *Ctx) Quick() bool { return c.Tier != "thorough" }
@@ -340,8 +348,8 @@ func (p *Prop) numOf(in []int64) int {
 	return p.Num
 }
 
-func (c *Ctx) Note(s string)      { c.mu.Lock(); c.notes = append(c.notes, s); c.mu.Unlock() }
-func (c *Ctx) SetExhaustive()     { c.exhaustive = true }
+func (c *Ctx) Note(s string)  { c.mu.Lock(); c.notes = append(c.notes, s); c.mu.Unlock() }
+func (c *Ctx) SetExhaustive() { c.exhaustive = true }
 func (c *Ctx) Count(h, k string) {
 	c.mu.Lock()
 	if c.hist[h] == nil {
@@ -386,7 +394,9 @@ func (t *T) eval(in []int64) *Failure {
 func (t *T) eval2(in []int64) (*Failure, []int64) {
 	p := t.C.P
 	var impl, model, spec []int64
-	if p.ImplM == nil {
+	if t.force != nil {
+		impl = t.force
+	} else if p.ImplM == nil {
 		impl = SafeImpl(p, in)
 	}
 	if p.Oracle != nil {
@@ -395,13 +405,17 @@ func (t *T) eval2(in []int64) (*Failure, []int64) {
 	} else {
 		model = t.M.Call(p.numOf(in), 0, in)
 	}
-	if p.ImplM != nil {
+	if p.ImplM != nil && t.force == nil {
 		q := *p
 		q.Impl = func(x []int64) []int64 { return p.ImplM(x, model) }
 		impl = SafeImpl(&q, in)
 	}
 	specOK := true
-	switch p.SpecMode {
+	mode := p.SpecMode
+	if p.SpecSkip != nil && p.SpecSkip(in) {
+		mode = "none"
+	}
+	switch mode {
 	case "equal":
 		if p.Oracle != nil {
 			spec = t.M.CallOracle(p, 1, in)
@@ -410,6 +424,16 @@ func (t *T) eval2(in []int64) (*Failure, []int64) {
 		}
 		specOK = matchSpec(spec, impl)
 	case "rel":
+		if p.JudgeLimit > 0 && len(in) > p.JudgeLimit {
+			ximpl := impl
+			if p.XProj != nil {
+				ximpl = p.XProj(in, impl)
+			}
+			if eqTok(model, ximpl) {
+				return nil, impl
+			}
+			return &Failure{In: in, Impl: clip(impl, 4000), Model: clip(model, 4000), Spec: []int64{-1000042}, Class: "diff"}, impl
+		}
 		arg := append(PutList(in), PutList(impl)...)
 		if p.Oracle != nil {
 			spec = t.M.CallOracle(p, 2, arg)
@@ -464,6 +488,14 @@ func (t *T) Try(family string, in []int64, nontrivial bool) bool {
 		// oracle property: the case together with its completed table is a closed term the kernel can evaluate
 		c.kernel = append(c.kernel, [2][]int64{append([]int64{}, t.last0...), nil})
 	}
+	if f == nil && c.P.Pure && t.force == nil && len(in) < 3000 && len(implOut) < 20000 && (c.P.Isolate == nil || !c.P.Isolate(in)) {
+		c.concSeen++
+		if len(c.conc) < 600 {
+			c.conc = append(c.conc, [2][]int64{in, implOut})
+		} else if k := int(sha1.Sum([]byte(fmt.Sprint(c.concSeen)))[0])<<8 | int(h[0]); c.concSeen%7 == 0 {
+			c.conc[k%600] = [2][]int64{in, implOut}
+		}
+	}
 	if f != nil {
 		c.nfail++
 		f.Family = family
@@ -489,7 +521,7 @@ func clip(l []int64, n int) []int64 {
 func (c *Ctx) shrink(t *T, f Failure) Failure {
 	p := c.P
 	cands := p.Shrink
-	if cands == nil {
+	if cands == nil || len(f.In) > 3000 { // very large cases: one evaluation of the judge can take minutes; reported as found
 		return f
 	}
 	orig := len(f.In)
@@ -549,6 +581,69 @@ func ShrinkOps(header, width int) func(in []int64) [][]int64 {
 	}
 }
 
+// ---------------------------------------------------------------- concurrent phase (Prop.Pure)
+// A sample of the cases of this run (with the outputs the implementation gave) is run again from many goroutines at the
+// same time.  Every case builds its own objects, so the result must be the one recorded; a different result means state
+// shared between calls (a package-level scratch buffer, a sync.Pool entry handed back too early, a cached header).
+// A differing output is judged like any other output: model, specification, VIOLATION line with the case.  The replay of
+// such a case runs it alone and passes; the family name says so.
+func (c *Ctx) concurrentPhase() {
+	p := c.P
+	sample := c.conc
+	if len(sample) < 2 {
+		return
+	}
+	G := 16
+	dur := time.Duration(c.N(4, 40)) * time.Second
+	deadline := time.Now().Add(dur)
+	var mu sync.Mutex
+	var bad [][2][]int64
+	calls := 0
+	var wg sync.WaitGroup
+	for g := 0; g < G; g++ {
+		wg.Add(1)
+		go func(g int) {
+			defer wg.Done()
+			r := rand.New(rand.NewSource(c.Seed*31 + int64(g)))
+			n := 0
+			for time.Now().Before(deadline) {
+				k := sample[r.Intn(len(sample))]
+				out := func() (o []int64) {
+					defer func() {
+						if recover() != nil {
+							o = []int64{PANIC}
+						}
+					}()
+					return p.Impl(k[0])
+				}()
+				n++
+				if !eqTok(out, k[1]) {
+					mu.Lock()
+					if len(bad) < 6 {
+						bad = append(bad, [2][]int64{k[0], out})
+					}
+					nb := len(bad)
+					mu.Unlock()
+					if nb >= 6 {
+						break
+					}
+				}
+			}
+			mu.Lock()
+			calls += n
+			mu.Unlock()
+		}(g)
+	}
+	wg.Wait()
+	m := <-c.models
+	for _, b := range bad {
+		t := &T{C: c, M: m, R: rand.New(rand.NewSource(c.Seed)), force: b[1]}
+		t.Try("concurrent-calls (another result than when the case runs alone; a replay runs it alone)", b[0], true)
+	}
+	c.models <- m
+	c.Note(fmt.Sprintf("concurrent phase: %d calls from %d goroutines over a sample of %d cases of this run, %d gave another result than alone", calls, G, len(sample), len(bad)))
+}
+
 // ---------------------------------------------------------------- main
 func main() {
 	var tier, out, driver, replay, kernelOut string
@@ -599,6 +694,9 @@ func main() {
 		c.Each(1, func(i int, t *T) { t.Try("replay", r.In, true) })
 	} else {
 		p.Gen(c)
+		if p.Pure {
+			c.concurrentPhase()
+		}
 	}
 	// classify, shrink
 	m := <-c.models
